@@ -6,17 +6,17 @@ CONSTANTS
   MaxResub = 1
   LiveLimit = 3
   Modes = {"rec"}
-  Kinds = {"fresh", "rlive", "rstream"}
-  Pages = {1, 2}
+  Kinds = {"fresh"}
+  Pages = {1}
   SSizes = {1, 2}
-  Filts = {"none", "client"}
+  Filts = {"none", "server"}
   Ops = {"pub", "rem", "exp", "sexp", "clear", "refresh", "poscheck"}
-  MaxJumps = 0
+  MaxJumps = 1
   Pres = {2}
-  N0s = {0}
-  Contig = FALSE
+  N0s = {2}
+  Contig = TRUE
   DropStale = FALSE
 VIEW View
-INVARIANTS TypeOK C22Coded
-PROPERTIES C22RCoded C16M
+INVARIANTS TypeOK C22
+PROPERTIES C22R C16M
 CHECK_DEADLOCK FALSE
